@@ -329,6 +329,8 @@ def run(tier):
     rule_R10(res, prog)
     rule_R11(res, prog)
     rule_R12(res, prog)
+    rule_R13(res, prog)
+    rule_R14(res, prog)
     return res.finish()
 
 
@@ -1036,3 +1038,118 @@ def rule_R12(res, prog):
                          "next CA of the same name" % (fn.relfile, bad[0], bad[2], bad[1]), file=fn.relfile, line=bad[0])
         res.instance(rid, "psVerifySig: const inputs reach callees as const (%d calls)" % ncalls, bad is None, finding=f_)
     res.floor(rid, 6)
+
+
+def rule_R13(res, prog):
+    """'truncated inputs are refused without reading outside the supplied buffer': a public-key routine that copies from one of
+    its input buffers reads exactly what the caller said is there - for every parameter pair (x, xLen) / (x, xlen) of the
+    functions in crypto/pubkey, a memcpy whose source is x has the length xLen (or a constant no larger than a test of xLen
+    established).  Copying `the modulus length` from a signature that may be shorter reads past the caller's buffer before
+    the length test refuses it."""
+    from sa import cfgutil as cu
+    rid = "C11.R13"
+    res.rule(rid, "public-key routines copy from an input buffer exactly its stated length")
+    MEMCPY = {"memcpy", "__builtin_memcpy", "__builtin___memcpy_chk"}
+    n = 0
+    for fn in sorted(prog.functions.values(), key=lambda f: f.qname):
+        if not fn.blocks or not fn.relfile.startswith("crypto/pubkey/"):
+            continue
+        names = {p_.get("n"): p_ for p_ in fn.params}
+        pairs = {}
+        for nm in names:
+            for suf in ("Len", "len", "_len", "Length"):
+                if nm and nm + suf in names and "*" in (names[nm].get("t") or ""):
+                    pairs[names[nm].get("id")] = nm + suf
+        if not pairs:
+            continue
+        gf = None
+        for b, ln, c in fn.calls():
+            if c.get("fn") not in MEMCPY or len(c.get("a", [])) < 3:
+                continue
+            src = strip(c["a"][1])
+            while src is not None and src.get("k") == "cast":
+                src = strip(src["e"])
+            if src is None or src.get("k") != "var" or src.get("id") not in pairs:
+                continue
+            n += 1
+            ln_name = pairs[src["id"]]
+            nt = cu.ftext(strip(c["a"][2]))
+            ok = nt == ln_name
+            if not ok:
+                gf = gf or cu.guard_facts(fn)
+                fs = gf.get(b["id"], ())
+                # a constant / other length is fine when xLen was shown equal to it (or not smaller)
+                ok = any((txt in ("(%s != %s)" % (ln_name, nt), "(%s < %s)" % (ln_name, nt)) and not tr) or
+                         (txt in ("(%s == %s)" % (ln_name, nt), "(%s >= %s)" % (ln_name, nt)) and tr) for (txt, tr) in fs)
+            f_ = None
+            if not ok:
+                f_ = Finding(PROP, rid, fn.name, "copy from an input buffer with a length that is not the buffer's",
+                             "%s:%s %s(): memcpy(.., %s, %s) reads %s bytes from the caller's `%s`, whose length is %s and was not shown to be at "
+                             "least that: a signature shorter than the modulus (peer-supplied length in ServerKeyExchange / CertificateVerify / "
+                             "a certificate) makes the routine read past the caller's buffer before its length test refuses it" % (
+                                 fn.relfile, ln, fn.name, src["n"], nt, nt, src["n"], ln_name), file=fn.relfile, line=ln)
+            res.instance(rid, "%s:%s memcpy from %s with length %s" % (fn.name, ln, src["n"], nt), ok, finding=f_)
+    res.floor(rid, 3)
+
+
+def rule_R14(res, prog):
+    """'accepts iff valid; bad keys rejected' at three boundary values the arithmetic does not represent:
+    (a) psEccDsaVerify multiplies the base point by u1 only under the fact u1 != 0 (the scalar multiplication hands back its
+        input point for the scalar 0, so a digest of 0 mod n would be verified against G + u2*Q: forgery from the public key);
+    (b) psRsaParseAsnPubKey returns success only behind the tests that the public exponent is odd and not 1 (with e = 1 the
+        padded block itself `verifies`);
+    (c) pkcs1Pad computes outlen - 3 - inlen only behind the test inlen <= outlen - 11 (the unsigned subtraction wraps and the
+        fill then runs off the output buffer)."""
+    from sa import cfgutil as cu
+    rid = "C11.R14"
+    res.rule(rid, "boundary values: u1 = 0 in ECDSA verification, RSA public exponent 1 / even, over-long data in pkcs1Pad")
+    n = 0
+    lst = prog.by_name.get("psEccDsaVerify")
+    if lst:
+        fn = lst[0]
+        gf = cu.guard_facts(fn)
+        for b, ln, c in fn.calls():
+            if c.get("fn") == "eccMulmod" and c.get("a") and "u1" in cu.ftext(strip(c["a"][1])):
+                n += 1
+                ok = any("u1" in txt and "used == 0" in txt and not tr for (txt, tr) in gf.get(b["id"], ()))
+                f_ = None
+                if not ok:
+                    f_ = Finding(PROP, rid, fn.name, "u1 = 0 not separated",
+                                 "%s:%s psEccDsaVerify(): eccMulmod(u1, G) is called without the fact u1 != 0: for a digest that is 0 modulo the "
+                                 "group order the multiplication returns G, the verifier compares r with x(G + u2*Q), a genuine signature is "
+                                 "refused and r = x(G + b*Q), s = r/b - made from the public key alone - is accepted" % (fn.relfile, ln),
+                                 file=fn.relfile, line=ln)
+                res.instance(rid, "psEccDsaVerify:%s u1*G only for u1 != 0" % ln, ok, finding=f_)
+    lst = prog.by_name.get("psRsaParseAsnPubKey")
+    for fn in lst or []:
+        if not fn.relfile.endswith("rsa_parse_mem.c"):
+            continue
+        for (what, pred) in (("e != 1", lambda x: "pstm_cmp_d(&(key->e), 1)" in cu.ftext(x)),
+                             ("e odd", lambda x: "key->e)->dp[0] & 1" in cu.ftext(x))):
+            n += 1
+            esc = cu.escapes(fn, (fn.entry, None), pred, is_target=lambda x: x.get("k") == "ret" and (strip(x.get("e")) or {}).get("k") == "int" and
+                             strip(x["e"])["v"] == 0)
+            f_ = None
+            if esc is not None:
+                f_ = Finding(PROP, rid, fn.name, "degenerate RSA public key accepted",
+                             "%s:%s psRsaParseAsnPubKey(): success is reachable (via lines %s) without the test `%s`: a key with public exponent 1 "
+                             "is imported and the bare padded block then verifies as its signature" % (
+                                 fn.relfile, esc[-1][1], [p_[1] for p_ in esc[-5:]], what), file=fn.relfile, line=esc[-1][1])
+            res.instance(rid, "psRsaParseAsnPubKey: success only behind the test %s" % what, esc is None, finding=f_)
+    lst = prog.by_name.get("pkcs1Pad")
+    if lst:
+        fn = lst[0]
+        n += 1
+
+        def sub(x):
+            return any(m.get("k") == "bin" and m["op"] == "=" and (strip(m["l"]) or {}).get("n") == "randomLen" and "outlen" in cu.ftext(strip(m["r"]))
+                       for m in walk(x))
+        esc = cu.escapes(fn, (fn.entry, None), lambda x: "inlen >" in cu.ftext(x) and "outlen" in cu.ftext(x), target_expr=sub)
+        f_ = None
+        if esc is not None:
+            f_ = Finding(PROP, rid, fn.name, "padding length computed without a bound on the data length",
+                         "%s:%s pkcs1Pad(): randomLen = outlen - 3 - inlen is computed without the test inlen <= outlen - 11: for longer data the "
+                         "unsigned result wraps to about 4G, passes `< 8` and the FF fill runs off the output buffer (signing k - 2 octets "
+                         "crashes instead of failing)" % (fn.relfile, esc[-1][1]), file=fn.relfile, line=esc[-1][1])
+        res.instance(rid, "pkcs1Pad: subtraction behind inlen <= outlen - 11", esc is None, finding=f_)
+    res.floor(rid, 4)
